@@ -29,7 +29,7 @@ ASSUMPTIONS = [
     '(receiver metadata-free or both functions None, union/union)',
 ]
 ANCHORS = ['Table.merge', 'Table._fast_merge', 'Table._union_id_order', 'Table._intersect_id_order', 'prefer_self']
-REQUIRED = ['scale_many_operands', 'other_containers_of_tables', 'operand_list_reused', 'empty_axis_operand_cases', 'empty_axis_operand_merged', 'wide_universe_cases', 'fast_path_taken', 'general_path_taken', 'path_agreement_checked',
+REQUIRED = ['table_subclass_operands', 'scale_many_operands', 'other_containers_of_tables', 'operand_list_reused', 'empty_axis_operand_cases', 'empty_axis_operand_merged', 'wide_universe_cases', 'fast_path_taken', 'general_path_taken', 'path_agreement_checked',
             'md_tap_calls_checked', 'empty_intersection_refused',
             'list_form', 'overlap_partial', 'overlap_disjoint',
             'overlap_nested', 'overlap_identical', 'mode_union_union',
@@ -157,6 +157,21 @@ def run_case(ctx, index):
     mdf = r.choice(['default', 'default', 'none', 'tapped', 'one-none'])
     ta = gen.apply_layout(ctx.biom, A, r.choice(RECIPES), r)
     tb = gen.apply_layout(ctx.biom, B, r.choice(RECIPES), r)
+    if r.random() < .15:
+        # user code subclasses Table; an instance of the subclass is a table
+        class LabTable(ctx.biom.Table):
+            pass
+
+        def as_sub(t_):
+            return LabTable(t_.matrix_data, t_.ids(axis='observation'),
+                            t_.ids(), t_.metadata(axis='observation'),
+                            t_.metadata(), type=t_.type)
+        which = r.choice(['receiver', 'other', 'both'])
+        if which in ('receiver', 'both'):
+            ta = as_sub(ta)
+        if which in ('other', 'both'):
+            tb = as_sub(tb)
+        ctx.count('table_subclass_operands')
     ctx.count('overlap_' + ov_o)
     ctx.count('mode_%s_%s' % (smode, omode))
     desc = {'A': A.describe(), 'B': B.describe(), 'sample': smode,
